@@ -1,7 +1,60 @@
-@@ Subscriber::remove_client_subscribe external
-@@ Subscriber::remove_client_subscribe skip_body
-@@ Subscriber::remove_config_key external
-@@ Subscriber::remove_config_key skip_body
+@@ Subscriber::remove_client_subscribe t10 1
+@@ Subscriber::remove_client_subscribe t8 2
+@@ Subscriber::remove_client_subscribe foriter 2 it2
+@@ Subscriber::remove_client_subscribe spec
+    // C10: the end of a connection ends only that connection's subscriptions: every other connection stays subscribed to exactly
+    // the keys it was subscribed to (so no change of those keys goes unreported), and the closed connection gains nothing
+    ensures forall|k: ConfigKey, c: Arc<String>| c != client_id ==> (#[trigger] final(self).subs(k, c) <==> old(self).subs(k, c)),
+        forall|k: ConfigKey| #[trigger] final(self).subs(k, client_id) ==> old(self).subs(k, client_id),
+@@ Subscriber::remove_client_subscribe entry
+    broadcast use vstd::std_specs::hash::group_hash_axioms;
+    broadcast use axiom_config_key_model;
+    broadcast use group_std_extra;
+    let ghost s0 = *self;
+    let ghost cid = client_id;
+@@ Subscriber::remove_client_subscribe loop 1
+    invariant cid == client_id,
+        forall|k: ConfigKey, c: Arc<String>| c != cid ==> (#[trigger] self.subs(k, c) <==> s0.subs(k, c)),
+        forall|k: ConfigKey| #[trigger] self.subs(k, cid) ==> s0.subs(k, cid),
+        forall|j: int, c: Arc<String>| 0 <= j < remove_keys@.len() ==> !#[trigger] self.subs(remove_keys@[j], c),
+    decreases hs_rest(vx_it_1).len()
+@@ Subscriber::remove_client_subscribe loop 1 arm_entry
+    broadcast use vstd::std_specs::hash::group_hash_axioms;
+    broadcast use axiom_config_key_model;
+    broadcast use group_std_extra;
+    let ghost s1 = *self;
+    let ghost rk1 = remove_keys@;
+    let ghost kk = key;
+@@ Subscriber::remove_client_subscribe loop 1 body_exit
+    proof {
+        assert forall|k: ConfigKey, c: Arc<String>| #[trigger] self.subs(k, c) <==> (s1.subs(k, c) && !(c == cid && k == kk)) by {
+            if k == kk { } else { assert(self.listener@.contains_key(k) == s1.listener@.contains_key(k)); }
+        }
+        assert forall|j: int, c: Arc<String>| 0 <= j < remove_keys@.len() implies !#[trigger] self.subs(remove_keys@[j], c) by {
+            if j < rk1.len() { assert(remove_keys@[j] == rk1[j]); assert(!s1.subs(rk1[j], c)); }
+            else { assert(remove_keys@[j] == kk); assert(self.listener@[kk]@.len() == 0); }
+        }
+    }
+@@ Subscriber::remove_client_subscribe after_loop 1
+    let ghost s2 = *self;
+    let ghost rks = remove_keys@;
+@@ Subscriber::remove_client_subscribe loop 2
+    invariant it2.seq().unref() == rks, remove_keys@ == rks, self.client_keys == s2.client_keys,
+        forall|j: int, c: Arc<String>| 0 <= j < rks.len() ==> !#[trigger] s2.subs(rks[j], c),
+        forall|k: ConfigKey, c: Arc<String>| #[trigger] self.subs(k, c) <==> s2.subs(k, c),
+@@ Subscriber::remove_client_subscribe loop 2 body_entry
+    broadcast use vstd::std_specs::hash::group_hash_axioms;
+    broadcast use axiom_config_key_model;
+    let ghost s3 = *self;
+    let ghost n2 = it2.index@;
+    proof { assert(*key == rks[n2]); }
+@@ Subscriber::remove_client_subscribe loop 2 body_exit
+    proof {
+        assert forall|k: ConfigKey, c: Arc<String>| #[trigger] self.subs(k, c) <==> s2.subs(k, c) by {
+            assert(s3.subs(k, c) == s2.subs(k, c));
+            if k == rks[n2] { assert(!s2.subs(rks[n2], c)); } else { assert(self.listener@.contains_key(k) == s3.listener@.contains_key(k)); }
+        }
+    }
 @@ ConfigKey::new_by_arc spec
     ensures r.data_id == data_id, r.group == group, r.tenant == tenant
 @@ ListenerItem::new spec
@@ -188,9 +241,23 @@
     broadcast use axiom_config_key_model;
 @@ Subscriber::notify spec
     ensures true
+@@ Subscriber::remove_config_key t10 1
+@@ Subscriber::remove_config_key t8 2
 @@ Subscriber::remove_config_key spec
+    // (not called any more since the S9 repair; kept under contract: it forgets the subscribers of exactly this key)
     ensures !final(self).listener@.contains_key(key),
-        forall|k: ConfigKey| k != key ==> (final(self).listener@.contains_key(k) == old(self).listener@.contains_key(k))
+        forall|k: ConfigKey, c: Arc<String>| k != key ==> (#[trigger] final(self).subs(k, c) <==> old(self).subs(k, c)),
+@@ Subscriber::remove_config_key entry
+    broadcast use vstd::std_specs::hash::group_hash_axioms;
+    broadcast use axiom_config_key_model;
+    broadcast use group_std_extra;
+    let ghost s0 = *self;
+    let ghost key0 = key;
+@@ Subscriber::remove_config_key loop 1
+    invariant self.listener@ == s0.listener@.remove(key0),
+    decreases hs_rest(vx_it_1).len()
+@@ Subscriber::remove_config_key loop 2
+    invariant self.listener@ == s0.listener@.remove(key0),
 @@ ConfigActor::handle@Handler<ConfigCmd> foriter 1 it
 @@ ConfigActor::handle@Handler<ConfigCmd> foriter 2 it2
 @@ ConfigActor::handle@Handler<ConfigCmd> spec
@@ -223,6 +290,21 @@
                     && final(self).listener.sender_map@ == old(self).listener.sender_map@.insert(final(self).listener.version, sender)
                     && (forall|i: int| 0 <= i < items@.len() ==> #[trigger] waiting(final(self).listener.listener@, items@[i].key).contains(final(self).listener.version))
                 }),
+            // C10: a gRPC subscription is recorded for exactly (connection, listed keys) and the subscriber is told at once about
+            // every listed key whose held md5 is stale; long-poll registrations and the store are untouched
+            ConfigCmd::Subscribe(items, client_id) => final(self).cache@ == old(self).cache@ && final(self).listener == old(self).listener
+                && (forall|k: ConfigKey, c: Arc<String>| #[trigger] final(self).subscriber.subs(k, c) <==> (old(self).subscriber.subs(k, c) || (c == client_id && listed(items@, k))))
+                && (if exists|i: int| 0 <= i < items@.len() && stale(old(self).cache@, items@[i]) {
+                        r is Ok && (match r.unwrap() {
+                            ConfigResult::ChangeKey(keys) => forall|i: int| 0 <= i < items@.len() && stale(old(self).cache@, items@[i]) ==> keys@.contains(#[trigger] items@[i].key),
+                            _ => false,
+                        })
+                    } else { r is Ok && r.unwrap() is NULL }),
+            // C10: an unsubscription ends exactly (connection, listed keys); the end of a connection ends only its own subscriptions
+            ConfigCmd::RemoveSubscribe(items, client_id) => final(self).cache@ == old(self).cache@ && final(self).listener == old(self).listener
+                && (forall|k: ConfigKey, c: Arc<String>| #[trigger] final(self).subscriber.subs(k, c) <==> (old(self).subscriber.subs(k, c) && !(c == client_id && listed(items@, k)))),
+            ConfigCmd::RemoveSubscribeClient(client_id) => final(self).cache@ == old(self).cache@ && final(self).listener == old(self).listener
+                && (forall|k: ConfigKey, c: Arc<String>| c != client_id ==> (#[trigger] final(self).subscriber.subs(k, c) <==> old(self).subscriber.subs(k, c))),
             _ => true,
         },
 @@ ConfigActor::handle@Handler<ConfigCmd> entry
@@ -251,6 +333,27 @@
     }
 @@ ConfigActor::handle@Handler<ConfigCmd> loop 2
     invariant *self == *old(self), it2.seq().unref() == items@,
+        forall|i: int| 0 <= i < it2.index@ && stale(self.cache@, items@[i]) ==> changes@.contains(#[trigger] items@[i].key),
+        changes@.len() > 0 ==> (exists|i: int| 0 <= i < it2.index@ && stale(self.cache@, items@[i])),
+@@ ConfigActor::handle@Handler<ConfigCmd> loop 2 body_entry
+    broadcast use vstd::std_specs::hash::group_hash_axioms;
+    broadcast use axiom_config_key_model;
+    broadcast use group_std_extra;
+    let ghost idx2 = it2.index@;
+    let ghost ch2 = changes@;
+@@ ConfigActor::handle@Handler<ConfigCmd> loop 2 body_exit
+    proof {
+        assert forall|i: int| 0 <= i < idx2 + 1 && stale(self.cache@, items@[i]) implies changes@.contains(#[trigger] items@[i].key) by {
+            if i < idx2 {
+                let j = choose|j: int| 0 <= j < ch2.len() && ch2[j] == items@[i].key;
+                assert(changes@[j] == ch2[j]);
+            } else {
+                assert(changes@.len() == ch2.len() + 1);
+                assert(changes@[ch2.len() as int] == items@[idx2].key);
+            }
+        }
+        if changes@.len() > 0 && !(exists|i: int| 0 <= i < idx2 && stale(self.cache@, items@[i])) { assert(stale(self.cache@, items@[idx2])); }
+    }
 @@ Subscriber::add_subscribe t8 1
 @@ Subscriber::add_subscribe foriter 1 it
 @@ Subscriber::add_subscribe foriter 2 it2
